@@ -149,4 +149,27 @@ def shapeGuard : RefShape → Bool
   | .relation name => name ≠ ""
   | .wildcard payload => payload
 
+/-! ### offset pagination of the memory datastore (ReadAuthorizationModels, ListStores)
+
+    from, err = strconv.Atoi(token)            -- any int the client likes
+    from = max(0, min(from, len(xs)))          -- clamp first
+    to := min(len(xs), from+pageSize)          -- then derive the upper bound
+    res := xs[from:to]                         -- panics unless 0 ≤ from ≤ to ≤ len -/
+
+/-- Go `int` addition on a 64-bit platform (wraps) -/
+def wrap64 (x : Int) : Int := (x + 9223372036854775808) % 18446744073709551616 - 9223372036854775808
+
+/-- the bounds as the source computes them: clamp, then add -/
+def pageBounds (len pageSize : Nat) (offset : Int) : Int × Int :=
+  let from' := max 0 (min offset len)
+  (from', min (len : Int) (wrap64 (from' + pageSize)))
+
+/-- the other order: the upper bound from the unclamped offset, the offset clamped to it afterwards -/
+def pageBoundsUnclamped (len pageSize : Nat) (offset : Int) : Int × Int :=
+  let to := min (len : Int) (wrap64 (offset + pageSize))
+  (max 0 (min offset to), to)
+
+/-- `xs[from:to]` does not panic -/
+def sliceOK (len : Nat) (b : Int × Int) : Bool := decide (0 ≤ b.1) && decide (b.1 ≤ b.2) && decide (b.2 ≤ len)
+
 end OpenFGAVerif.Model.Panics
